@@ -8,7 +8,8 @@ The program text is symbolic: every position is a symbolic index into the token 
 import sys, os
 _REPO = os.environ.get("VT_REPO", "/repo")
 from vt.world import enter, verdict, cfg, CFG, pick, cut
-from vt.symtext import SymText, ALPHA, SUB
+from vt.symtext import SymText, ALPHA, SUB, install_re_proxy
+install_re_proxy()        # before klongpy is imported: a regex-based lexer must still run on symbolic text
 from klongpy import KlongInterpreter
 import klongpy.interpreter as I
 import klongpy.parser as P
@@ -21,7 +22,7 @@ FUNCTIONS = ["klongpy.parser." + n for n in ("skip_space", "skip", "read_shifted
                                             "read_expr_array", "read_sys_comment")] + \
     ["klongpy.interpreter.KlongInterpreter." + n for n in ("prog", "_expr", "_factor", "_read_fn_args", "_apply_adverbs")]
 ASSUMPTIONS = [
-    "program text = SymText: concrete length, every position a symbolic index into a 30-character token alphabet (one representative "
+    "program text = SymText: concrete length, every position a symbolic index into a 31-character token alphabet (one representative "
     "per character class the lexer distinguishes); a position becomes a real one-character str when first read",
     "work is measured in calls of kg_read (every loop of the parser performs at least one, or advances the index by one)",
     "real NumPy backend (no symbolic numbers reach it: numerals are parsed from realised digits)",
@@ -273,8 +274,8 @@ def extra_obligations(tier):
 
 def bounds(tier):
     q = tier == "quick"
-    return {"termination / repeatability": "all texts of length <= 2 over the 30-character alphabet and length 3 over the 14-character "
-            "structural sub-alphabet" if q else "all texts of length <= 3 over the 30-character alphabet and length 4 over the sub-alphabet",
+    return {"termination / repeatability": "all texts of length <= 2 over the 31-character alphabet and length 3 over the 14-character "
+            "structural sub-alphabet" if q else "all texts of length <= 3 over the 31-character alphabet and length 4 over the sub-alphabet",
             "progress lemmas": "every lexer function, every start index, texts of length <= %d" % (2 if q else 3),
             "work bound": "40*(n+1)^2 kg_read calls, no RecursionError", "alphabet": ALPHA, "sub-alphabet": SUB}
 
